@@ -179,6 +179,12 @@ func (m *Monitor) Guard(name string, f func()) Usage {
 		}
 	}
 	if runtime.NumGoroutine() > base {
+		// goroutines of the library that are still there get a longer grace
+		// period (a goroutine that is about to return may not have been
+		// scheduled yet on a loaded machine); what remains blocked after it is a leak
+		for i := 0; i < 40 && len(libraryGoroutines()) > 0; i++ {
+			time.Sleep(50 * time.Millisecond)
+		}
 		u.Leaked = libraryGoroutines()
 		u.Goroutines = len(u.Leaked)
 	}
